@@ -193,7 +193,9 @@ static int encode_special_opd(struct instr *instrc, int m, int i) {
 int encode_operands(struct instr *instrc) {
 
   // xchg instruction with RM operand encoding using rax or al register
-  if (NAME(instrc->key, xchg) && !instrc->mem_disp) {
+  // ('xchg eax, eax' is not the one byte nop 0x90: it clears the upper half of rax)
+  if (NAME(instrc->key, xchg) && !instrc->mem_disp &&
+      !(instrc->opd[0].reg == (reg32 | al) && instrc->opd[1].reg == (reg32 | al))) {
     if ((MODE_MASK & instrc->opd[0].reg) > noext8 &&
         (REG_MASK & instrc->opd[0].reg) == al) {
       // swap operands
